@@ -184,6 +184,11 @@ class Interp:
                     if isinstance(cv, tuple) and cv[0] == "static":
                         return cv[1]
                     return cv
+                if obj.open_attrs is not None and name in obj.open_attrs:
+                    # data the loaders put in the instance dict: found before __getattr__ is consulted
+                    v = self.fresh_attr(obj, name)
+                    d[name] = v
+                    return v
                 ga = cls.lookup("__getattr__")
                 if ga is not _MISSING and not name.startswith("__"):
                     return self.call(BoundMethod(ga, obj), [name], {})
